@@ -546,9 +546,9 @@ func (m *MonStaking) AfterTx(s *Sim, i int, raw []byte, meta *TxMeta, res *abci.
 	m.cur = after
 	// staking changes of this transaction
 	type chg struct {
-		k      c16Key
-		dSt    *big.Int // decrease of the stake part
-		dWl    *big.Int
+		k   c16Key
+		dSt *big.Int // decrease of the stake part
+		dWl *big.Int
 	}
 	var chgs []chg
 	keys := map[c16Key]bool{}
@@ -1095,7 +1095,7 @@ func init() {
 			"reward payouts are delegated to the paying candidate: RewardEvents are taken as inflow of the ledger, their amounts are C19's subject",
 			"a byzantine punishment is recognised by the stake reduction observed in BeginBlock together with evidence in the request; when it must happen is C18's subject",
 		},
-		Quick: 28, Thorough: 560, MinEval: 4000, MinDistinct: 20,
+		Quick: 28, Thorough: 360, MinEval: 4000, MinDistinct: 20,
 		Run: runC16,
 		Post: func(total *WorkerResult) {
 			requireClasses(total, "leave/unbond/", "leave/move/", "matured/unbond/from-tx-08", "matured/move/from-tx-1b", "matured/lock/", "lock-created/",
